@@ -690,3 +690,83 @@ func init() {
 			return obs
 		}})
 }
+
+func init() {
+	register(&Rule{ID: "BIND.all-args-consumed", Floor: 1,
+		Doc: "the binder succeeds only when the whole argument list was consumed: every return of bind that hands back an environment is reached only over an edge entailing argsp.IsEOF() for the parser over the call's arguments — a call with more arguments than the formals can absorb fails with `invalid number of arguments`, which is what lint's upper bound predicts",
+		Run: func(c *Ctx) []Obligation {
+			fn, fd, pkg := c.LookupFunc("lisp.(*LEnv).bind")
+			if fn == nil {
+				return []Obligation{anchorMissing("BIND.all-args-consumed", "lisp.(*LEnv).bind")}
+			}
+			u := FuncUnit{fn, fd, pkg}
+			info := pkg.TypesInfo
+			fc := c.cfgOf(u, nil)
+			ps := paramObjs(u)
+			if len(ps) != 2 {
+				return []Obligation{mkOb(c, "BIND.all-args-consumed", u, "signature", fd, Undecided, "bind no longer has (fun, args) parameters", false)}
+			}
+			argsP := ps[1]
+			// the parser local over args.Cells
+			var parser types.Object
+			ast.Inspect(fd.Body, func(n ast.Node) bool {
+				as, ok := n.(*ast.AssignStmt)
+				if !ok || len(as.Lhs) != 1 || len(as.Rhs) != 1 {
+					return true
+				}
+				cl, ok := ast.Unparen(as.Rhs[0]).(*ast.CompositeLit)
+				if !ok {
+					return true
+				}
+				for _, el := range cl.Elts {
+					if kv, ok := el.(*ast.KeyValueExpr); ok {
+						if se, ok := ast.Unparen(kv.Value).(*ast.SelectorExpr); ok && se.Sel.Name == "Cells" && identObj(info, se.X) == argsP {
+							parser = identObj(info, as.Lhs[0])
+						}
+					}
+				}
+				return true
+			})
+			if parser == nil {
+				return []Obligation{mkOb(c, "BIND.all-args-consumed", u, "argument parser", fd, Undecided, "no argParser over args.Cells found in bind", false)}
+			}
+			cls := func(e ast.Expr) (string, bool) {
+				ce, ok := ast.Unparen(e).(*ast.CallExpr)
+				if !ok {
+					return "", false
+				}
+				se, ok := ast.Unparen(ce.Fun).(*ast.SelectorExpr)
+				if !ok || se.Sel.Name != "IsEOF" || identObj(info, se.X) != parser {
+					return "", false
+				}
+				return "argsDone", false
+			}
+			cut := fc.edgesEntailing(cls, func(v map[string]bool) bool { return v["$has:argsDone"] && v["argsDone"] })
+			var obs []Obligation
+			ord := &ordinal{}
+			for _, b := range fc.G.Blocks {
+				if !fc.Live(b) {
+					continue
+				}
+				for _, n := range b.Nodes {
+					rs, ok := n.(*ast.ReturnStmt)
+					if !ok || len(rs.Results) != 2 {
+						continue
+					}
+					if tv, ok := info.Types[rs.Results[0]]; ok && tv.IsNil() {
+						continue // a failure return
+					}
+					construct := ord.next("success return")
+					if len(cut) > 0 && !fc.reachableAvoiding(b, cut) {
+						obs = append(obs, mkOb(c, "BIND.all-args-consumed", u, construct, rs, Proved, "reached only after the argument parser reported end of input", true))
+					} else {
+						obs = append(obs, mkOb(c, "BIND.all-args-consumed", u, construct, rs, Violated, "bind can succeed with arguments left over: a call with too many arguments is accepted (the surplus is silently dropped) although lint reports it and the reference signals `invalid number of arguments`", true))
+					}
+				}
+			}
+			if len(obs) == 0 {
+				obs = append(obs, mkOb(c, "BIND.all-args-consumed", u, "success return", fd, Undecided, "no success return found", false))
+			}
+			return obs
+		}})
+}
